@@ -13,7 +13,7 @@ _HOOKED = {}
 class Observation:
   """Everything observed for one code object."""
   __slots__ = ("qualname", "firstlineno", "ops_line", "n_ops", "blocks", "order", "ops", "items_line",
-               "real_ops_line", "version", "error", "kind")
+               "real_ops_line", "version", "error", "kind", "items", "host_code", "xleg")
 
 
 def install_hooks():
@@ -29,9 +29,25 @@ def install_hooks():
   orig_apbt = blocks.add_pop_block_targets
   orig_order = cfg_utils.order_nodes
 
+  orig_ase = opcodes._add_setup_except      # pylint: disable=protected-access
+
+  def ase(offset_to_op, exc_table):
+    before = abstract_xitems(sorted(offset_to_op.items()))
+    entries = ["%d %d %d %d" % (e.start, e.end, e.target, 1 if e.lasti else 0) for e in exc_table.entries]
+    pending.append((entries, before))
+    return orig_ase(offset_to_op, exc_table)
+  pending = []
+
   def mol(offset_to_op, python_version):
     # abstracted NOW: _add_jump_targets sets .target on every jump afterwards
-    log["mol"].append((abstract_items(sorted(offset_to_op.items())), python_version))
+    items = sorted(offset_to_op.items())
+    xleg = None
+    if pending:
+      entries, before = pending.pop()
+      del pending[:]
+      xleg = ("X %d %d %s %s" % (len(entries), len(before), " ".join(entries), " ".join(b.replace(",", " ") for b in before)),
+              ";".join(abstract_xitems(items)))
+    log["mol"].append((abstract_items(items), python_version, items, xleg))
     return orig_mol(offset_to_op, python_version)
 
   def apbt(bytecode):
@@ -46,10 +62,11 @@ def install_hooks():
     return r
 
   opcodes._make_opcode_list = mol           # pylint: disable=protected-access
+  opcodes._add_setup_except = ase           # pylint: disable=protected-access
   blocks.add_pop_block_targets = apbt
   cfg_utils.order_nodes = order_nodes
   _HOOKED.update(log=log, blocks=blocks, opcodes=opcodes, cfg_utils=cfg_utils,
-                 orig=(orig_mol, orig_apbt, orig_order))
+                 orig=(orig_mol, orig_apbt, orig_order), orig_ase=orig_ase)
   return _HOOKED
 
 
@@ -58,6 +75,7 @@ def uninstall_hooks():
     return
   h = _HOOKED
   h["opcodes"]._make_opcode_list, h["blocks"].add_pop_block_targets, h["cfg_utils"].order_nodes = h["orig"]  # pylint: disable=protected-access
+  h["opcodes"]._add_setup_except = h["orig_ase"]  # pylint: disable=protected-access
   _HOOKED.clear()
 
 
@@ -85,20 +103,33 @@ def set_class_ids(ids):
 
 def abstract_items(items, ids=None):
   """Model input for sorted(offset_to_op.items()) as seen by _make_opcode_list: 4 ints per item
-  (2*offset, class id, 2*argval for known jumps without a preset target, 2*offset of a preset target)."""
+  (2*offset+1, class id, 2*argval+1 for known jumps without a preset target, key of a preset target)."""
   ids = ids or CLASS_IDS
   key_of = {id(op): off for off, op in items}
   out = []
   for off, op in items:
-    k = int(round(off * 2))
+    k = int(round(off * 2)) + 1           # real op at offset o: 2o+1; synthetic o-0.5 / o+0.5: 2o / 2o+2
     preset = -1
     arg = -1
     if op.target is not None:
-      preset = int(round(key_of[id(op.target)] * 2)) if id(op.target) in key_of else -2
+      preset = int(round(key_of[id(op.target)] * 2)) + 1 if id(op.target) in key_of else -2
     elif op.has_known_jump():
-      arg = int(op.argval) * 2
+      arg = int(op.argval) * 2 + 1
     out.append("%d %d %d %d" % (k, ids[op.__class__.__name__], arg, preset))
   return " ".join(out)
+
+
+def abstract_xitems(items, ids=None):
+  """offset_to_op for the _add_setup_except leg: key, class id, line (0 = None), key of a preset target."""
+  ids = ids or CLASS_IDS
+  key_of = {id(op): off for off, op in items}
+  out = []
+  for off, op in items:
+    preset = -1
+    if op.target is not None:
+      preset = int(round(key_of[id(op.target)] * 2)) + 1 if id(op.target) in key_of else -2
+    out.append("%d,%d,%d,%d" % (int(round(off * 2)) + 1, ids[op.__class__.__name__], op.line or 0, preset))
+  return out
 
 
 def real_ops_line(ops):
@@ -256,6 +287,169 @@ def oracle(ops, nodes, order, opcodes):
   return v
 
 
+IGNORED_HANDLER_OPS = ("END_ASYNC_FOR", "CLEANUP_THROW", "SWAP")   # cross-checked with opcodes.py by c16_flags
+
+
+def host_instructions(co):
+  """(offset, opname) of every real instruction of a CPython code object, read with `dis`; the offset is that of
+  the first EXTENDED_ARG prefix (jumps and exception-table entries address the prefix)."""
+  import dis  # pylint: disable=import-outside-toplevel
+  out = []
+  start = None
+  for ins in dis.get_instructions(co):
+    if ins.opname == "EXTENDED_ARG":
+      if start is None:
+        start = ins.offset
+      continue
+    out.append((ins.offset if start is None else start, ins.opname))
+    start = None
+  return out
+
+
+def exception_table_oracle(co, items, ops, nodes, order, opcodes, ops_line=None):
+  """Ties the synthetic SETUP_EXCEPT_311 / POP_BLOCK opcodes to an INDEPENDENT reading of co_exceptiontable
+  (dis._parse_exception_table) and of the instruction offsets (dis.get_instructions).
+
+  (0) the real (non-synthetic) opcodes are exactly CPython's instructions, offset by offset;
+  (i) every exception-table entry pytype keeps (handler not END_ASYNC_FOR/CLEANUP_THROW/SWAP, not lasti, first
+      entry of its source line) has exactly one SETUP_EXCEPT_311 immediately before the instruction at its start,
+      with target = the instruction at the entry's target offset and stack_depth = depth, and exactly one
+      POP_BLOCK immediately after the last instruction before its end; no other synthetic op exists;
+  (ii) along the instruction sequence the synthetic ops read SETUP(e1) POP(e1) SETUP(e2) POP(e2) ... in start order;
+  (iii) the handler of every kept entry is the first instruction of a block; if the entry's POP_BLOCK lies in an
+      ordered block that the async merge did not rebuild, its block_target is the handler of a kept entry, and if
+      it is this entry's handler (or the SETUP is the first op of such a block) the handler block is ordered.
+      (Measured on the whole 3.12 stdlib: a handler is unordered only when its POP_BLOCK is unreachable - the try
+      body cannot complete normally - and the SETUP is not first in its block, or inside merged async blocks.)"""
+  import bisect  # pylint: disable=import-outside-toplevel
+  import dis     # pylint: disable=import-outside-toplevel
+  v = []
+  synthetic = (opcodes.SETUP_EXCEPT_311, opcodes.POP_BLOCK)
+  ins = host_instructions(co)
+  real = [(off, op) for off, op in items if not isinstance(op, synthetic)]
+  if ins != [(off, op.name) for off, op in real]:
+    k = next((i for i, (a, b) in enumerate(zip(ins, real)) if a != (b[0], b[1].name)), min(len(ins), len(real)))
+    v.append(("opcodes-differ-from-cpython-disassembly", ins[k][1] if k < len(ins) else "<end>"))
+    return v
+  real_ids = {id(op) for _, op in real}
+  opat = {off: op for off, op in real}
+  offs = [off for off, _ in ins]
+  kept = []
+  seen_lines = set()
+  for e in dis._parse_exception_table(co):  # pylint: disable=protected-access
+    if e.start not in opat or e.target not in opat:
+      v.append(("exception-entry-not-at-an-instruction",))
+      continue
+    if opat[e.target].name in IGNORED_HANDLER_OPS:
+      continue
+    line = opat[e.start].line
+    if not e.lasti and line not in seen_lines:
+      seen_lines.add(line)
+      kept.append(e)
+  by_start = {e.start: e for e in kept}
+  by_last = {offs[bisect.bisect_left(offs, e.end) - 1]: e for e in kept}
+  seq = []
+  setup_of, pop_of = {}, {}
+  for k, (off, op) in enumerate(items):
+    if isinstance(op, opcodes.SETUP_EXCEPT_311):
+      nxt = items[k + 1] if k + 1 < len(items) else None
+      e = by_start.get(nxt[0]) if nxt is not None and id(nxt[1]) in real_ids else None
+      if e is None:
+        v.append(("setup-except-not-before-an-entry-start",))
+        continue
+      if op.target is not opat[e.target]:
+        v.append(("setup-except-target-is-not-the-entry-handler", opat[e.target].name))
+      if getattr(op, "stack_depth", None) != e.depth:
+        v.append(("setup-except-depth-differs",))
+      seq.append(("S", e.start))
+      setup_of[e.start] = op
+    elif isinstance(op, opcodes.POP_BLOCK):
+      prv = items[k - 1] if k > 0 else None
+      e = by_last.get(prv[0]) if prv is not None and id(prv[1]) in real_ids else None
+      if e is None:
+        v.append(("pop-block-not-after-an-entry-end",))
+        continue
+      seq.append(("P", e.start))
+      pop_of[e.start] = op
+  want = [x for e in sorted(kept, key=lambda e: e.start) for x in (("S", e.start), ("P", e.start))]
+  if seq != want:
+    lost_s = sum(1 for e in kept if e.start not in setup_of)
+    lost_p = sum(1 for e in kept if e.start not in pop_of)
+    v.append(("synthetic-exception-ops-do-not-match-the-exception-table",
+              ("entries=%d setups=%d pops=%d lost-setup=%d lost-pop=%d" % (
+                  len(kept), sum(1 for x in seq if x[0] == "S"), sum(1 for x in seq if x[0] == "P"), lost_s, lost_p),)))
+  if [id(op) for _, op in items] != [id(op) for op in ops]:
+    v.append(("opcode-list-is-not-the-sorted-offset-table",))
+  # (iii)
+  heads = {id(b.code[0]): b for b in nodes if b.code}
+  in_order = {id(b) for b in order}
+  where = {}
+  for b in nodes:
+    for o in b.code:
+      where.setdefault(id(o), b)
+
+  def plain_ordered(b):
+    if b is None or id(b) not in in_order:
+      return False
+    idxs = [o.index for o in b.code]
+    return b.id == idxs[0] and idxs == list(range(idxs[0], idxs[0] + len(idxs)))
+  handlers = {id(opat[e.target]) for e in kept}
+  reach_cache = []
+
+  def insn_reachable():
+    """ops reachable from the first one along next (unless NO_NEXT) and target (jumps and SETUP ops) links"""
+    if not reach_cache:
+      # targets as they were when add_pop_block_targets ran (the async merge rewrites some afterwards)
+      pre = None
+      if ops_line is not None:
+        f = ops_line.split()
+        pre = [int(f[7 * k + 1]) for k in range(len(f) // 7)]
+      seen = set()
+      todo = [ops[0]] if ops else []
+      while todo:
+        o = todo.pop()
+        if id(o) in seen:
+          continue
+        seen.add(id(o))
+        tgt = o.target
+        if pre is not None and o.index < len(pre):
+          tgt = ops[pre[o.index]] if pre[o.index] >= 0 else None
+        if tgt is not None and (o.does_jump() or o.pushes_block()):
+          todo.append(tgt)
+        if not o.no_next() and o.next is not None:
+          todo.append(o.next)
+      reach_cache.append(seen)
+    return reach_cache[0]
+  for e in kept:
+    su, po = setup_of.get(e.start), pop_of.get(e.start)
+    h = opat[e.target]
+    hb = heads.get(id(h))
+    if hb is None and id(h) in where:
+      v.append(("handler-does-not-start-a-block", h.name))
+    need = False
+    if po is not None and plain_ordered(where.get(id(po))):
+      if po.block_target is None and id(po) not in insn_reachable():
+        # unchanged-tree behaviour (generated programs only): code that follows an `async for` is entered through
+        # the exception table alone, add_pop_block_targets' walk over next/target links never reaches it and its
+        # POP_BLOCKs keep block_target = None.  Reported separately (candidate finding).
+        v.append(("note:pop-block-not-reached-by-add_pop_block_targets",))
+      elif po.block_target is None or id(po.block_target) not in handlers:
+        v.append(("reachable-pop-block-has-no-handler-block-target",))
+      elif po.block_target is h:
+        if where[id(po)].code[-1] is po:
+          need = True
+        elif hb is None or id(hb) not in in_order:
+          # unchanged-tree behaviour (measured: 122 stdlib code objects): the protected range ends at a SEND
+          # (`try: await x`), the POP_BLOCK lands INSIDE the SEND window, is not the last op of its block, and
+          # compute_order never connects it to the handler.  Reported separately (candidate finding).
+          v.append(("note:handler-dropped-pop-block-inside-send-window", h.name))
+    if su is not None and plain_ordered(where.get(id(su))) and where[id(su)].code[0] is su:
+      need = True
+    if need and (hb is None or id(hb) not in in_order):
+      v.append(("handler-block-not-ordered", h.name))
+  return v
+
+
 def code_kind(oc):
   n = oc.name
   if n == "<module>":
@@ -285,9 +479,17 @@ def observe_source(src, filename):
   for k in log:
     del log[k][:]
   try:
-    compile(src, filename, "exec")
+    host = compile(src, filename, "exec")
   except (SyntaxError, ValueError, OverflowError, RecursionError, MemoryError) as e:
     return [], "compile:" + str(e)[:80]          # not a compilable program
+  host_codes = []
+
+  def walk_host(co):
+    host_codes.append(co)
+    for c in co.co_consts:
+      if hasattr(c, "co_code"):
+        walk_host(c)
+  walk_host(host)
   try:
     code = pyc.compile_src(src, filename, (3, 12), None)
     ordered, _ = h["blocks"].process_code(code)
@@ -307,7 +509,7 @@ def observe_source(src, filename):
         walk(c)
   walk(ordered)
   obs = []
-  for k, ((items_line, ver), (ops, ops_line, rol), (nodes, order)) in enumerate(zip(log["mol"], log["apbt"], log["order"])):
+  for k, ((items_line, ver, raw_items, xleg), (ops, ops_line, rol), (nodes, order)) in enumerate(zip(log["mol"], log["apbt"], log["order"])):
     ob = Observation()
     ob.qualname, ob.firstlineno, ob.kind = names[k] if k < len(names) else ("?", 0, "?")
     ob.version = ver
@@ -317,9 +519,12 @@ def observe_source(src, filename):
     ob.blocks = nodes
     ob.order = order
     ob.items_line = items_line
+    ob.items = raw_items
+    ob.xleg = xleg
+    ob.host_code = host_codes[k] if k < len(host_codes) else None
     ob.real_ops_line = rol
     ob.error = None
     obs.append(ob)
-  if len(names) != len(obs):
-    return obs, "code object walk found %d objects, hooks saw %d" % (len(names), len(obs))
+  if len(names) != len(obs) or len(host_codes) != len(obs):
+    return obs, "code object walk found %d/%d objects, hooks saw %d" % (len(names), len(host_codes), len(obs))
   return obs, None
